@@ -56,3 +56,44 @@ B1(4,1,1,1,1,1,1) B2R1(4,3) B2R1(4,4) B2R1(4,5) B2R1(4,9) B2(4,2,4) B2(4,2,7) B2
 #ifdef VERIF_THOROUGH
 B2R1(8,7) B2R1(8,8) B2R1(8,17) B2(8,2,8) B2(8,2,9) B2(8,3,17) B2(4,3,13)
 #endif
+
+// ---- outer_simd_enumerator: out = lhs (x) rhs, lhs is broadcast to every lane, rhs and out advance together along rhs' last axis.
+// A step with tag PACKED has N valid lanes, a step with tag PAD_k has N - k.
+template <size_t... E> struct shp { static constexpr size_t rank = sizeof...(E); static constexpr std::array<size_t,sizeof...(E)> value{E...}; static constexpr size_t numel = (E * ... * 1); };
+template <size_t N, class L, class Rr>
+void ob_c12_outer()
+{
+    constexpr size_t LD = L::rank, RD = Rr::rank, OD = LD + RD;
+    constexpr auto lsh = L::value; constexpr auto rsh = Rr::value;
+    std::array<size_t,OD> out{};
+    for (size_t i = 0; i < LD; i++) out[i] = lsh[i];
+    for (size_t i = 0; i < RD; i++) out[LD+i] = rsh[i];
+    const auto en = ix::outer_simd_enumerator(meta::as_type_v<N>, out, lsh, rsh);
+    constexpr size_t last = rsh[RD-1], per_row = last / N + (last % N ? 1 : 0), STEPS = (L::numel * Rr::numel / last) * per_row, TOTAL = L::numel * Rr::numel;
+    constexpr long tag = (long)(L::numel * 1000 + Rr::numel * 10 + RD);
+    OBLIGE("C12.outer.number_of_steps", (size_t)en.size() == STEPS, N, tag, LD, RD);
+    size_t covered[TOTAL] = {};
+    for_<STEPS>([&](auto I){
+        const auto step = en[I.value];
+        const auto [otag, oidx] = nm::at(step, 0); const auto [ltag, lidx] = nm::at(step, 1); const auto [rtag, ridx] = nm::at(step, 2);
+        OBLIGE("C12.outer.tags", ltag == SIMD::BROADCAST && rtag == otag && ((int)otag == (int)SIMD::PACKED || ((int)otag >= 1 && (int)otag < (int)N)), N, tag, LD, RD);
+        const size_t lanes = ((int)otag == (int)SIMD::PACKED) ? N : N - (size_t)(int)otag;
+        OBLIGE("C02.outer.out_inside|C12.outer.out_inside", (size_t)oidx + lanes <= TOTAL, N, tag, LD, RD);
+        OBLIGE("C02.outer.rhs_inside|C12.outer.rhs_inside", (size_t)ridx + lanes <= Rr::numel, N, tag, LD, RD);
+        OBLIGE("C02.outer.lhs_inside|C12.outer.lhs_inside", (size_t)lidx < L::numel, N, tag, LD, RD);
+        for (size_t k = 0; k < lanes; k++) {
+            const size_t p = (size_t)oidx + k;
+            if (p < TOTAL) covered[p]++;
+            // out is C-ordered over (lhs axes..., rhs axes...): flat p = lhs_flat * numel(rhs) + rhs_flat
+            OBLIGE("C12.outer.lhs_position_is_the_outer_partner|C01.outer.lhs_offset", (size_t)lidx == p / Rr::numel, N, tag, LD, RD);
+            OBLIGE("C12.outer.rhs_position_is_the_outer_partner|C01.outer.rhs_offset", (size_t)ridx + k == p % Rr::numel, N, tag, LD, RD);
+        }
+    });
+    for_<TOTAL>([&](auto P){ OBLIGE("C12.outer.every_output_position_exactly_once", covered[P.value] == 1, N, tag, LD*10+RD, P.value); });
+}
+#define OU(N,L,R) template void ob_c12_outer<N,L,R>();
+#define COMMA ,
+OU(4, shp<2>, shp<5>) OU(4, shp<3>, shp<4>) OU(4, shp<2>, shp<2 COMMA 5>) OU(4, shp<2 COMMA 2>, shp<3>) OU(4, shp<2 COMMA 2>, shp<2 COMMA 4>) OU(4, shp<2>, shp<2 COMMA 2 COMMA 5>) OU(4, shp<2 COMMA 1 COMMA 2>, shp<6>) OU(4, shp<1>, shp<1>)
+#ifdef VERIF_THOROUGH
+OU(8, shp<2>, shp<9>) OU(8, shp<2>, shp<2 COMMA 2 COMMA 17>) OU(4, shp<3>, shp<2 COMMA 3 COMMA 2 COMMA 5>) OU(4, shp<2 COMMA 3 COMMA 2>, shp<2 COMMA 7>)
+#endif
